@@ -1,6 +1,7 @@
 import Rare.Proofs.C16Views
 import Rare.Proofs.C16Seam
 import Rare.Proofs.C16Dissect
+import Rare.Proofs.C16Special
 import Rare.Gen.C16
 /-!
 Property C16: the JSON views `{.}`, `{#}`, `{.#}` of a match are valid, faithful and deterministic.
@@ -462,6 +463,255 @@ theorem special_valid_faithful (texts : List Bytes) (order : List (Bytes × Byte
     obtain ⟨x, _, hx⟩ := List.mem_map.mp hm
     exact ⟨x.2, by rw [← hx]; rfl⟩
 
+/-! ### round 4: the exact number grammar, `-k` arguments, the rest of minijson, the C02 seam -/
+
+/-- **The shapes `isNumeric` accepts, exactly** (the converse of `numeric_shape`): `int` or `int.frac` with
+at least one digit on each side of the point and no superfluous leading zero – and nothing else. -/
+theorem numeric_iff_shape (s : Bytes) :
+    isNumeric s = true ↔
+      ∃ ip fp, ip ≠ [] ∧ ip.all isDig = true ∧ fp.all isDig = true ∧ ¬ (1 < ip.length ∧ ip.head? = some 0x30) ∧
+        ((s = ip ∧ fp = []) ∨ (s = ip ++ 0x2e :: fp ∧ fp ≠ [])) :=
+  isNumeric_iff_shape s
+
+/-- **Bare number ⇔ RFC 8259 number without sign and exponent.**  For every byte string: the capture is
+written as a bare literal by the numeric branch of `WriteInferred` if and only if the whole capture is a
+JSON number (`parseNumber`, the grammar of RFC 8259 §6, consumes it completely) that is written with
+digits and the decimal point only.  So nothing that is not a JSON number is ever emitted bare, and the
+JSON numbers that stay strings are exactly those with a minus sign or an exponent (`numeric_boundary`). -/
+theorem numeric_iff_plain_json_number (s : Bytes) :
+    isNumeric s = true ↔ (∃ v, parseNumber s = some (v, [])) ∧ plainChars s = true :=
+  isNumeric_iff_plain_number s
+
+/-- captures around the boundary of the class: `(text, is a complete RFC 8259 number, is emitted bare)` -/
+def numericBoundaryTable : List (String × Bool × Bool) :=
+  [-- JSON numbers written with a sign or an exponent: kept as strings
+   ("-0", true, false), ("-1.5", true, false), ("1e5", true, false), ("1E+5", true, false), ("0.0e-0", true, false),
+   ("-12345678901234567890", true, false),
+   -- JSON numbers written with digits and point only: bare
+   ("0", true, true), ("0.0", true, true), ("10.050", true, true), ("12345678901234567890123", true, true),
+   -- not JSON numbers, not bare
+   ("1.", false, false), (".5", false, false), ("+1", false, false), ("007", false, false), ("00", false, false),
+   ("00.5", false, false), ("-007", false, false), ("0x10", false, false), ("Infinity", false, false),
+   ("NaN", false, false), ("1,000", false, false), ("1 ", false, false), (" 1", false, false),
+   ("1.2.3", false, false), ("1..2", false, false), ("-", false, false), (".", false, false), ("", false, false),
+   ("1e", false, false), ("1e+", false, false), ("null", false, false), ("\\u0031", false, false)]
+
+/-- **The boundary of the class, kernel-checked.**  JSON numbers that are NOT emitted bare (sign, exponent)
+– they become strings and decode to the exact capture; and numeral-looking captures that are not JSON
+numbers at all and are (rightly) not bare: trailing/leading point, plus sign, leading zeros, hexadecimal,
+`Infinity`, `NaN`, digit groups, white space.  Every row of `numericBoundaryTable` is as stated, and no
+row has a capture emitted bare that is not a complete JSON number. -/
+theorem numeric_boundary : ∀ r ∈ numericBoundaryTable,
+    ((parseNumber (lit r.1)).map (·.2) == some []) = r.2.1 ∧ isNumeric (lit r.1) = r.2.2 ∧
+    (r.2.2 = true → r.2.1 = true) := by
+  decide +kernel
+
+/-- **Which kind of JSON value a capture becomes**, for every byte string: a number exactly when `isNumeric`
+(and then the number is the capture's decimal reading), `null` never (the word `null` stays a string, in
+any case), otherwise – unless it is one of the 48 boolean spellings (`bool_only_ascii_spellings`) – the
+string with exactly the capture's bytes. -/
+theorem value_kind_exact (val : Bytes) :
+    (isNumeric val = true → ∃ m e, inferredVal val = .num m e ∧ decimalValue val = some (m, e)) ∧
+    ((∃ m e, inferredVal val = .num m e) → isNumeric val = true) ∧
+    inferredVal val ≠ .null ∧
+    (isNumeric val = false → val ∉ spellings litTrue → val ∉ spellings litFalse → inferredVal val = .str val) := by
+  have ht := equalFoldLen_iff val litTrue litTrue_lower
+  have hf := equalFoldLen_iff val litFalse litFalse_lower
+  refine ⟨?_, ?_, ?_, ?_⟩
+  · intro h
+    obtain ⟨m, e, _, hd⟩ := isNumeric_parse val [] h endsNumber_nil
+    exact ⟨m, e, by simp [inferredVal, h, hd], hd⟩
+  · rintro ⟨m, e, h⟩
+    unfold inferredVal at h
+    split at h
+    · assumption
+    · split at h
+      · cases h
+      · split at h <;> cases h
+  · intro h
+    unfold inferredVal at h
+    split at h
+    · rename_i hn
+      obtain ⟨m, e, _, hd⟩ := isNumeric_parse val [] hn endsNumber_nil
+      simp [hd] at h
+    · split at h
+      · cases h
+      · split at h <;> cases h
+  · intro hn h1 h2
+    have a : ¬ equalFoldLen val litTrue = true := fun h => h1 (ht.mp h)
+    have b : ¬ equalFoldLen val litFalse = true := fun h => h2 (hf.mp h)
+    simp [inferredVal, hn, a, b]
+
+/-- a group that did not take part in the match (or matched the empty text): the named views still have
+its member, with the empty string as value; the numbered views leave it out (`view_members`) -/
+theorem empty_capture_rendering :
+    inferredVal [] = .str [] ∧ valueText [] = [0x22, 0x22] ∧
+    ∀ (indices : List Int) (line : Bytes) (i : Nat), capture indices line (i : Nat) = [] →
+      natAscii i ∉ (expectedNumbered indices line).map (·.1) := by
+  refine ⟨by decide, by decide, ?_⟩
+  intro indices line i h hm
+  simp only [expectedNumbered, List.mem_map, List.mem_filterMap, List.mem_range] at hm
+  obtain ⟨m, ⟨j, _, hj⟩, e⟩ := hm
+  split at hj
+  · cases hj
+  · rename_i hne
+    simp only [Option.some.injEq] at hj
+    subst hj
+    have := natAscii_inj _ _ e
+    subst this
+    exact hne h
+
+/-- **`-k name=value`: how one argument is split.**  At the FIRST `=`: the name is everything before it (so
+a name cannot contain `=`, the value can), the name may be empty (`=v`), the value may be empty (`k=`);
+an argument without `=` is both its own name and its own value. -/
+theorem kv_parse (s : Bytes) :
+    ((0x3d : UInt8) ∉ s ∧ parseKeyValue s = (s, s)) ∨
+    (s = (parseKeyValue s).1 ++ 0x3d :: (parseKeyValue s).2 ∧ (0x3d : UInt8) ∉ (parseKeyValue s).1) :=
+  parseKeyValue_cases s
+
+/-- **Repeated `-k` names: the last one wins, and the map has no duplicates** – so the `hnd` hypothesis of
+`special_valid_faithful` / `special_deterministic` always holds for the map `rare expression` builds. -/
+theorem kv_map_last_wins (kvs : List Bytes) :
+    ((parseKeyValuesIntoMap kvs).map (·.1)).Nodup ∧
+    ∀ q : Bytes × Bytes, q ∈ parseKeyValuesIntoMap kvs ↔ lastValue (kvs.map parseKeyValue) q.1 = some q.2 :=
+  kvMap_spec kvs
+
+/-- **`rare expression -d … -k …`, without hypotheses.**  For every list of `-d` and `-k` arguments (arbitrary
+bytes, repeated names, empty names, no `=`) and every two iteration orders `σ₁ σ₂` of the map built from
+the `-k` arguments: the text is the same, it parses as one object, and its members are the `-d` values
+under `0, 1, …` followed by the `-k` names in ascending byte order, each with the exact string of the last
+value given for it. -/
+theorem special_args_valid_faithful (data kvs : List Bytes) (σ₁ σ₂ : List (Bytes × Bytes))
+    (h1 : σ₁.Perm (parseKeyValuesIntoMap kvs)) (h2 : σ₂.Perm (parseKeyValuesIntoMap kvs)) :
+    buildSpecialKeyJson data σ₁ = buildSpecialKeyJson data σ₂ ∧
+    ∃ ms es, parseObj (buildSpecialKeyJson data σ₁) = some ms ∧ es.Perm (parseKeyValuesIntoMap kvs) ∧
+      es.Pairwise (fun a b => bytesLe a.1 b.1 = true) ∧
+      (∀ q ∈ es, lastValue (kvs.map parseKeyValue) q.1 = some q.2) ∧
+      ms = (indexedMembers 0 data ++ es).map (fun m => (m.1, JVal.str m.2)) := by
+  have hnd0 := (kv_map_last_wins kvs).1
+  have hnd : (σ₁.map (·.1)).Nodup := (h1.map (·.1)).nodup_iff.mpr hnd0
+  refine ⟨special_deterministic data σ₁ σ₂ (h1.trans h2.symm) hnd, ?_⟩
+  refine ⟨_, (sortNames (σ₁.map (·.1))).map fun k => (k, mapGet [] σ₁ k),
+    by rw [special_text]; exact parseObj_objText _ _, ?_, ?_, ?_, ?_⟩
+  · have hp := (sortNames_perm (σ₁.map (·.1))).map (fun k => (k, mapGet [] σ₁ k))
+    refine (hp.trans ?_).trans h1
+    rw [List.map_map]
+    apply List.Perm.of_eq
+    conv => rhs; rw [← List.map_id σ₁]
+    apply List.map_congr_left
+    intro p hp
+    simp [mapGet_mem [] σ₁ p hnd hp]
+  · rw [List.pairwise_map]
+    exact sortNames_sorted _
+  · intro q hq
+    obtain ⟨k, hk, e⟩ := List.mem_map.mp hq
+    obtain ⟨p, hp, e2⟩ := List.mem_map.mp ((sortNames_perm _).mem_iff.mp hk)
+    have : q = p := by
+      rw [← e, ← e2, mapGet_mem [] σ₁ p hnd hp]
+    rw [this]
+    exact ((kv_map_last_wins kvs).2 p).mp (h1.mem_iff.mp hp)
+  · rfl
+
+/-- **Repeated member names in `{.#}` of `rare expression`.**  The `-d` numerals are distinct, the `-k` names
+are distinct; the two parts share a name exactly when a `-k` name is the decimal numeral of a `-d`
+position (`-d x -k 0=y` gives `{"0": "x", "0": "y"}` – syntactically valid, names SHOULD be unique). -/
+theorem special_names_nodup_iff (data : List Bytes) (order : List (Bytes × Bytes))
+    (hnd : (order.map (·.1)).Nodup) :
+    ((specialMembers data order).map (·.1)).Nodup ↔ ∀ p ∈ order, ∀ i < data.length, p.1 ≠ natAscii i := by
+  rw [specialMembers_names, List.nodup_append]
+  have h1 := indexed_names_nodup data.length
+  have h2 : (sortNames (order.map (·.1))).Nodup := (sortNames_perm _).nodup_iff.mpr hnd
+  constructor
+  · rintro ⟨_, _, hd⟩ p hp i hi e
+    exact hd (natAscii i) (List.mem_map.mpr ⟨i, List.mem_range.mpr hi, rfl⟩) p.1
+      ((sortNames_perm _).mem_iff.mpr (List.mem_map_of_mem hp)) e.symm
+  · intro h
+    refine ⟨h1, h2, ?_⟩
+    intro a ha b hb e
+    obtain ⟨i, hi, e1⟩ := List.mem_map.mp ha
+    obtain ⟨p, hp, e2⟩ := List.mem_map.mp ((sortNames_perm _).mem_iff.mp hb)
+    exact h p hp i (List.mem_range.mp hi) (by rw [e2, ← e, e1])
+
+/-- the four JSON keys of `rare expression`: `{.}` has the `-k` pairs only, `{#}` the `-d` values only,
+`{.#}` and `{#.}` are the same text with both -/
+theorem expression_keys (key : Bytes) (data : List Bytes) (order : List (Bytes × Bytes)) :
+    expressionJsonKey key data order =
+      (viewFlags key).map (fun f => buildSpecialKeyJson (if f.2 then data else []) (if f.1 then order else [])) ∧
+    expressionJsonKey [0x2e, 0x23] data order = expressionJsonKey [0x23, 0x2e] data order := by
+  refine ⟨?_, by simp [expressionJsonKey]⟩
+  unfold expressionJsonKey viewFlags
+  split
+  · rfl
+  · split
+    · rfl
+    · split <;> rfl
+
+/-- **`MarshalStringMapInferred` (pkg/minijson/util.go) is valid and faithful for EVERY map and every
+iteration order**: the text parses, and its members are the entries in the order `range` produced them,
+every value the exact string (in spite of the function's name nothing is inferred). -/
+theorem marshal_valid_faithful (order : List (Bytes × Bytes)) :
+    parseObj (marshalStringMap order) = some (order.map fun p => (p.1, JVal.str p.2)) ∧
+    membersDecode (order.map fun p => (p.1, JVal.str p.2)) order = true := by
+  rw [marshal_text]
+  exact ⟨parseObj_objText _ _, membersDecode_string order⟩
+
+/-- … but it is NOT deterministic: the entries are written in map iteration order (no sort), so two
+evaluations on the same map may give different texts.  The function is exported but no command calls it
+(the views go through `json` / `buildSpecialKeyJson`, which sort), so the property is not affected; the
+member *sets* agree (`marshal_valid_faithful`: a permutation of the entries). -/
+theorem marshal_order_counterexample :
+    ∃ o₁ o₂ : List (Bytes × Bytes), o₁.Perm o₂ ∧ (o₁.map (·.1)).Nodup ∧ marshalStringMap o₁ ≠ marshalStringMap o₂ :=
+  ⟨[(lit "a", lit "1"), (lit "b", lit "2")], [(lit "b", lit "2"), (lit "a", lit "1")],
+    List.Perm.swap _ _ _, by decide, by decide⟩
+
+/-- **`WriteInt`** (`strconv.Itoa` as a bare literal) is a JSON number of exactly that value for EVERY `int`,
+negative ones included. -/
+theorem writeInt_valid (key : Bytes) (n : Int) :
+    parseObj ((JB.opened.writeInt key n).close.sb) = some [(key, .num n 0)] := by
+  have h := writeAllW_opened (writeInt_eq n) [(key, [])]
+  simp only [writeAllW, List.foldl_cons, List.foldl_nil] at h
+  rw [h, parseObj_objText]
+  rfl
+
+/-- **Seam with C02's model of `GetKey`**: C02 answers the placeholder `.json` ("property C16") for exactly
+the keys C16 models as JSON views, and those keys are decided BEFORE the name table is consulted – a
+dissect field named `#` or `.` can never be read through `{#}` / `{.}`. -/
+theorem getKey_json_iff_view (c : C02.MatchCtx) (key : Bytes) :
+    (getKeyJson key c.names c.indices c.line).isSome = (viewFlags key).isSome ∧
+    (C02.getKey c key = .ok .json ↔ (viewFlags key).isSome = true) := by
+  have e1 : ascii "." = [0x2e] := by decide +kernel
+  have e2 : ascii "#" = [0x23] := by decide +kernel
+  have e3 : ascii ".#" = [0x2e, 0x23] := by decide +kernel
+  have e4 : ascii "#." = [0x23, 0x2e] := by decide +kernel
+  have e5 : ascii "src" = [0x73, 0x72, 0x63] := by decide +kernel
+  have e6 : ascii "line" = [0x6c, 0x69, 0x6e, 0x65] := by decide +kernel
+  have e7 : ascii "@" = [0x40] := by decide +kernel
+  refine ⟨by rw [(view_keys key c.names c.indices c.line).1]; cases viewFlags key <;> rfl, ?_⟩
+  have hv : (viewFlags key).isSome = true ↔ key = [0x2e] ∨ key = [0x23] ∨ key = [0x2e, 0x23] ∨ key = [0x23, 0x2e] := by
+    rw [← (view_keys key c.names c.indices c.line).2.2]
+    cases viewFlags key <;> simp
+  rw [hv]
+  unfold C02.getKey
+  rw [e1, e2, e3, e4, e5, e6, e7]
+  constructor
+  · intro h
+    split at h
+    · cases h
+    · split at h
+      · cases h
+      · split at h
+        · assumption
+        · split at h
+          · cases ha : C02.array c.line c.indices <;> simp [ha, Except.map] at h
+          · split at h
+            · rename_i p _
+              cases hg : C02.getMatch c.line c.indices p.2 <;> simp [hg, Except.map] at h
+            · cases h
+  · intro h
+    have n1 : key ≠ [0x73, 0x72, 0x63] := by rcases h with h | h | h | h <;> subst h <;> decide
+    have n2 : key ≠ [0x6c, 0x69, 0x6e, 0x65] := by rcases h with h | h | h | h <;> subst h <;> decide
+    rw [if_neg n1, if_neg n2, if_pos h]
+
 /-! ### non-vacuity -/
 
 /-- a match with two named groups and a numbered view: `json` returns, hypotheses are satisfiable -/
@@ -555,6 +805,24 @@ example : (json false true [] [0, 3] [0x61, 0xff, 0x22]).toOption
     sanitize (lit "{\"0\": \"a" ++ [0xff] ++ lit "\\\"\"}") = lit "{\"0\": \"a" ++ fffd ++ lit "\\\"\"}" ∧
     sanitize [0x61, 0xe2, 0x82, 0x41, 0xc3, 0xa9, 0xed, 0xa0, 0x80]
       = [0x61] ++ fffd ++ fffd ++ [0x41, 0xc3, 0xa9] ++ fffd ++ fffd ++ fffd := by decide
+
+/-! non-vacuity of the round-4 theorems -/
+example : parseKeyValue (lit "a=b=c") = (lit "a", lit "b=c") ∧ parseKeyValue (lit "abc") = (lit "abc", lit "abc") ∧
+    parseKeyValue (lit "=v") = ([], lit "v") ∧ parseKeyValue (lit "k=") = (lit "k", []) := by decide +kernel
+example : parseKeyValuesIntoMap [lit "a=1", lit "b=2", lit "a=3"] = [(lit "a", lit "3"), (lit "b", lit "2")] := by
+  decide +kernel
+example : lastValue ([lit "a=1", lit "b=2", lit "a=3"].map parseKeyValue) (lit "a") = some (lit "3") := by decide +kernel
+example : buildSpecialKeyJson [lit "x"] (parseKeyValuesIntoMap [lit "0=y"]) = lit "{\"0\": \"x\", \"0\": \"y\"}" := by
+  decide +kernel
+example : (JB.opened.writeInt (lit "n") (-42)).close.sb = lit "{\"n\": -42}" ∧
+    (JB.opened.writeInt (lit "n") 0).close.sb = lit "{\"n\": 0}" := by decide +kernel
+example : marshalStringMap [(lit "b", lit "007"), (lit "a", lit "true")] = lit "{\"b\": \"007\", \"a\": \"true\"}" := by
+  decide +kernel
+example : expressionJsonKey (lit "#") [lit "d"] [(lit "k", lit "v")] = some (lit "{\"0\": \"d\"}") ∧
+    expressionJsonKey (lit ".") [lit "d"] [(lit "k", lit "v")] = some (lit "{\"k\": \"v\"}") ∧
+    expressionJsonKey (lit "#.") [lit "d"] [(lit "k", lit "v")] = some (lit "{\"0\": \"d\", \"k\": \"v\"}") := by
+  decide +kernel
+example : plainChars (lit "10.5") = true ∧ plainChars (lit "1e5") = false := by decide
 
 /-! ### seams: the same code modelled for C02 / C08 and for C12 -/
 
